@@ -72,15 +72,19 @@ theorem getFile_lookup (gs : List (String × GroupFile)) (name : String) (a : Bo
     (k : String) (f : GroupFile) (s : Bool) (h : getFile gs name a = some (k, f, s)) : lookup k gs = some f :=
   getFileAux_lookup gs a _ name false k f s h
 
+/-- `readDescription` returns a file of the store, with its description upgraded -/
 theorem readDescription_lookup (gs : List (String × GroupFile)) (name : String) (a : Bool)
-    (k : String) (f : GroupFile) (s : Bool) (h : readDescription gs name a = some (k, f, s)) : lookup k gs = some f := by
+    (k : String) (f : GroupFile) (s : Bool) (h : readDescription gs name a = some (k, f, s)) :
+    ∃ f0, lookup k gs = some f0 ∧ f = { f0 with desc := f0.desc.upgrade } := by
   unfold readDescription at h
   split at h
   · simp at h
   · next k' f' s' hg =>
+    simp only at h
     split at h
     · simp at h
-    · simp at h; obtain ⟨h1, h2, _⟩ := h; subst h1; subst h2; exact getFile_lookup _ _ _ _ _ _ hg
+    · simp at h; obtain ⟨h1, h2, _⟩ := h; subst h1; subst h2
+      exact ⟨f', getFile_lookup _ _ _ _ _ _ hg, rfl⟩
 
 /-- without the subgroup walk, "not found" means that the file of that name does not exist -/
 theorem getFile_none (gs : List (String × GroupFile)) (name : String) (hn : name ≠ "")
@@ -105,6 +109,145 @@ theorem readDescription_none (gs : List (String × GroupFile)) (name : String) (
     split at hg
     · simp at hg; obtain ⟨_, _, h3⟩ := hg; subst h3; simp at h
     · simp at hg
+
+/-! ### `upgradeDescription` -/
+
+theorem upgradeStep_rest (d : Desc) (l : Legacy) :
+    (upgradeStep d l).content = d.content ∧ (upgradeStep d l).keys = d.keys ∧ (upgradeStep d l).autoSub = d.autoSub := by
+  unfold upgradeStep
+  split
+  · split <;> simp
+  · split <;> simp
+
+theorem fold_rest (l : List Legacy) (d : Desc) :
+    (l.foldl upgradeStep d).content = d.content ∧ (l.foldl upgradeStep d).keys = d.keys ∧
+    (l.foldl upgradeStep d).autoSub = d.autoSub := by
+  induction l generalizing d with
+  | nil => simp
+  | cons x xs ih =>
+    obtain ⟨h1, h2, h3⟩ := ih (upgradeStep d x)
+    obtain ⟨g1, g2, g3⟩ := upgradeStep_rest d x
+    simp only [List.foldl]
+    exact ⟨h1.trans g1, h2.trans g2, h3.trans g3⟩
+
+/-- the first entry of a legacy list that carries the name `n` -/
+def firstLegacy (n : String) : List Legacy → Option Legacy
+  | [] => none
+  | x :: xs => if x.name = n then some x else firstLegacy n xs
+
+theorem step_users (d : Desc) (x : Legacy) (n : String) (hn : n ≠ "") :
+    lookup n (upgradeStep d x).users =
+      match lookup n d.users with
+      | some u => some u
+      | none => if x.name = n then some (upgradeUser x) else none := by
+  unfold upgradeStep
+  by_cases hx : x.name = ""
+  · have hxn : ¬ x.name = n := fun h => hn (h ▸ hx)
+    simp only [hx, if_true]
+    rw [hx] at hxn
+    cases d.wildcard <;> cases lookup n d.users <;> simp [hxn]
+  · simp only [hx, if_false]
+    by_cases hxn : x.name = n
+    · subst hxn
+      cases hl : lookup x.name d.users with
+      | some u => simp [hl]
+      | none => simp [lookup_upsert_self]
+    · cases hl : lookup x.name d.users with
+      | some u => simp only [hxn, if_false]; cases lookup n d.users <;> rfl
+      | none =>
+        simp only [hxn, if_false]
+        rw [lookup_upsert_ne _ _ _ _ (fun h => hxn h.symm)]
+        cases lookup n d.users <;> rfl
+
+theorem step_users_empty (d : Desc) (x : Legacy) : lookup "" (upgradeStep d x).users = lookup "" d.users := by
+  unfold upgradeStep
+  by_cases hx : x.name = ""
+  · simp only [hx, if_true]; cases d.wildcard <;> rfl
+  · simp only [hx, if_false]
+    cases lookup x.name d.users with
+    | some u => rfl
+    | none => exact lookup_upsert_ne _ _ _ _ (fun h => hx h.symm)
+
+theorem step_wildcard (d : Desc) (x : Legacy) :
+    (upgradeStep d x).wildcard =
+      match d.wildcard with
+      | some w => some w
+      | none => if x.name = "" then some (upgradeUser x) else none := by
+  unfold upgradeStep
+  by_cases hx : x.name = ""
+  · simp only [hx, if_true]; cases hw : d.wildcard <;> simp [hw]
+  · simp only [hx, if_false]
+    cases lookup x.name d.users <;> cases hw : d.wildcard <;> simp [hw]
+
+/-- the named users after folding the legacy entries: an existing entry wins, otherwise the
+first legacy entry with that name, with the role of its array -/
+theorem fold_users (l : List Legacy) (d : Desc) (n : String) (hn : n ≠ "") :
+    lookup n (l.foldl upgradeStep d).users =
+      match lookup n d.users with
+      | some u => some u
+      | none => (firstLegacy n l).map upgradeUser := by
+  induction l generalizing d with
+  | nil => simp [firstLegacy]; cases lookup n d.users <;> rfl
+  | cons x xs ih =>
+    simp only [List.foldl]
+    rw [ih, step_users d x n hn]
+    cases lookup n d.users with
+    | some u => rfl
+    | none =>
+      by_cases hxn : x.name = n <;> simp [firstLegacy, hxn]
+
+/-- the user with the empty name is never created or changed by the upgrade -/
+theorem fold_users_empty (l : List Legacy) (d : Desc) :
+    lookup "" (l.foldl upgradeStep d).users = lookup "" d.users := by
+  induction l generalizing d with
+  | nil => rfl
+  | cons x xs ih => simp only [List.foldl]; rw [ih, step_users_empty]
+
+/-- the wildcard user after folding: an existing one wins, otherwise the first entry without username -/
+theorem fold_wildcard (l : List Legacy) (d : Desc) :
+    (l.foldl upgradeStep d).wildcard =
+      match d.wildcard with
+      | some w => some w
+      | none => (firstLegacy "" l).map upgradeUser := by
+  induction l generalizing d with
+  | nil => simp [firstLegacy]; cases d.wildcard <;> rfl
+  | cons x xs ih =>
+    simp only [List.foldl]
+    rw [ih, step_wildcard]
+    cases d.wildcard with
+    | some w => rfl
+    | none => by_cases hx : x.name = "" <;> simp [firstLegacy, hx]
+
+/-- **`upgradeDescription`, specification.**  After the upgrade the obsolete arrays are empty;
+description and keys are untouched; `allow-subgroups` has become `auto-subgroups`; a named user is
+the `users` entry if there is one, otherwise the first legacy entry with that name (in the order
+`op`, `presenter`, `other`) with the role of its array and "any password" if it has none — later
+entries with the same name are dropped; the wildcard user is the `wildcard-user` field if present,
+otherwise the first entry without username; the user with the empty name is left alone. -/
+theorem upgrade_spec (d : Desc) :
+    d.upgrade.legacy = [] ∧ d.upgrade.allowSubLegacy = false ∧
+    d.upgrade.content = d.content ∧ d.upgrade.keys = d.keys ∧
+    d.upgrade.autoSub = (d.autoSub || d.allowSubLegacy) ∧
+    (∀ n, n ≠ "" → lookup n d.upgrade.users =
+      match lookup n d.users with
+      | some u => some u
+      | none => (firstLegacy n d.legacy).map upgradeUser) ∧
+    lookup "" d.upgrade.users = lookup "" d.users ∧
+    d.upgrade.wildcard =
+      (match d.wildcard with
+       | some w => some w
+       | none => (firstLegacy "" d.legacy).map upgradeUser) := by
+  obtain ⟨h1, h2, _⟩ := fold_rest d.legacy d
+  exact ⟨rfl, rfl, h1, h2, rfl, fun n hn => fold_users d.legacy d n hn, fold_users_empty d.legacy d,
+    fold_wildcard d.legacy d⟩
+
+/-- a description without legacy fields is its own upgrade -/
+theorem upgrade_of_modern (d : Desc) (h1 : d.legacy = []) (h2 : d.allowSubLegacy = false) : d.upgrade = d := by
+  unfold Desc.upgrade
+  rw [h1, h2]
+  simp only [List.foldl, Bool.or_false]
+  cases d
+  simp_all
 
 theorem rewrite_ok (st : State) (key : String) (d : Desc) (st' : State) (h : rewrite st key d = .ok st') :
     st' = { st with groups := upsert key { desc := d, ver := st.ctr + 1 } st.groups, ctr := st.ctr + 1 } := by
@@ -135,6 +278,12 @@ theorem setUser_rest (d : Desc) (w : Who) (u : User) :
 theorem delUser_rest (d : Desc) (w : Who) :
     (d.delUser w).content = d.content ∧ (d.delUser w).autoSub = d.autoSub ∧ (d.delUser w).keys = d.keys := by
   cases w <;> simp [Desc.delUser]
+
+theorem setUser_legacy (d : Desc) (w : Who) (u : User) : (d.setUser w u).legacy = d.legacy := by
+  cases w <;> rfl
+
+theorem delUser_legacy (d : Desc) (w : Who) : (d.delUser w).legacy = d.legacy := by
+  cases w <;> rfl
 
 /-- what a successful write of one definition file leaves alone -/
 def OneFile (st st' : State) (key : String) (f f' : GroupFile) : Prop :=
